@@ -33,7 +33,8 @@ SIG_TORN = "C13:xyz:cut-inside-last-token"
 SIG_RAISE = "C13:xyz:partial-line-raises"
 # open candidate findings on the UNCHANGED /repo (reported, not yet recorded in known_findings.json): a failure with one of
 # these signatures is written into the evidence (extra.pending_findings) instead of being printed as a VIOLATION
-PENDING_FINDINGS = ["C13:text:carriage-return"]   # audit pass; see cr_probe (reported, not yet decided)
+PENDING_FINDINGS = []     # C13:text:carriage-return was fixed by /repo d5ef98e (known_findings.json: fixed); enforced
+SIG_CR = "C13:text:carriage-return"
 # C13:lammps:trailing-blank-late-newline was fixed by /repo dfb19e7 (known_findings.json: fixed)
 SIG_TRAILING = "C13:lammps:trailing-blank-late-newline"
 
@@ -159,6 +160,30 @@ def gen_lmp(rng, natoms, nframes, style):
         frames.append((rows, box))
         bounds.append(blen(text))
     return text, frames, bounds
+
+
+def with_cr(rng, text, bounds, mode):
+    """carriage returns (since /repo d5ef98e the readers open with newline="\\n": '\\r' is an ordinary blank, only
+    '\\n' ends a line).  mode "crlf": every line ends in "\\r\\n"; mode "mixed": per line "\\n" / "\\r\\n" / " \\r\\n" /
+    "\\r\\r\\n", and some single blanks inside lines become a lone '\\r'.  The values stay what they are; returns
+    the new text and frame bounds."""
+    out = ""
+    nb = [0]
+    for i in range(len(bounds) - 1):
+        seg = text.encode()[bounds[i]:bounds[i + 1]].decode()
+        for line in seg.split("\n")[:-1]:
+            if mode == "mixed":
+                chars = list(line)
+                for j, ch in enumerate(chars):
+                    if ch == " " and 0 < j and rng.random() < 0.25:
+                        chars[j] = "\r"
+                line = "".join(chars)
+                eol = rng.choice(["\n", "\r\n", "\r\n", " \r\n", "\r\r\n"])
+            else:
+                eol = "\r\n"
+            out += line + eol
+        nb.append(blen(out))
+    return out, nb
 
 
 # ----------------------------------------------------------------------------- real code runner
@@ -315,7 +340,7 @@ def pred_xyz(stages, cuts, frames, bounds):
     return None
 
 
-LMP_WS = " \t\n\x0b\x0c\x1c\x1d\x1e\x1f"
+LMP_WS = " \t\r\n\x0b\x0c\x1c\x1d\x1e\x1f"
 
 
 def lmp_slacks(text, bounds):
@@ -443,35 +468,61 @@ def drive_model(ctx, head, seqs, chunk=300):
     return out
 
 
-# ----------------------------------------------------------------------------- '\r': outside the modelled domain
+# ----------------------------------------------------------------------------- '\r' (fixed by /repo d5ef98e)
 CR_WITNESS = "2\r\nc\r\nH 1 2 3\r\nC 4 5 6\r\n2\r\nc\r\nH 1 2 3\r\nC 4 5 7\r\n"
+CR_LONE = "2 \rx\nc\ra\rb\nH\r1 2\r3\r\nC 4 5 6\n2\nc\r\nH 1 2 3\nC 4 5\r7\r\r\n"
+CR_FRAMES = [[["1", "2", "3"], ["4", "5", "6"]], [["1", "2", "3"], ["4", "5", "7"]]]
+CR_LMP = ("T\r\n0\r\nN\r\n1\r\nB\r\n0 1\r\n0 1\r\n0\r1\r\nA\r\n1 1 1 2 3 4 5 6 1\r\n"
+          "T\n0\nN\r\n1\nB x\ry\n0 2\n0 2\n0 2\r\nA\n1 1 7\r8 9 1 2 3 1 \r\n")
+CR_LMP_FRAMES = [([["1", "2", "3", "4", "5", "6"]], [["0", "1", "0"]] * 3),
+                 ([["7", "8", "9", "1", "2", "3"]], [["0", "2", "0"]] * 3)]
 
 
 def cr_probe(ctx, ep, rf):
-    """Files with carriage returns are outside the domain of the theorems (`XyzF.WF.nocr` / `LmpF.WF.nocr`): the code
-    opens the file in universal-newline text mode, the byte model does not translate.  This probe records what the
-    real readers do on a CRLF xyz file cut between '\\r' and '\\n' (as found: the pending '\\r' reads as a line end,
-    the frame is returned, the next poll starts on the bare '\\n' and raises ZeroDivisionError).  The outcome goes
-    into the evidence as a pending finding (signature in PENDING_FINDINGS), never into a VIOLATION line."""
-    data = CR_WITNESS.encode()
-    half = len(data) // 2
-    frames = [[["1", "2", "3"], ["4", "5", "6"]], [["1", "2", "3"], ["4", "5", "7"]]]
-    out = {}
-    for name, cuts in (("cut-between-cr-and-lf", [half - 1, len(data), len(data)]), ("whole-file", [len(data)] * 2)):
-        stages = rf.polls(ep, ep.xyz_reader, data, cuts, conv_xyz)
-        bad = pred_xyz(stages, cuts, frames, [0, half, len(data)])
-        out[name] = "as the property demands" if bad is None else (
-            f"{bad[0]}: {bad[1]}; stages: " + " | ".join(show_code_stage(st, "xyz") for st in stages))
-        ctx.count(1, branch="xyz:carriage-return-probe")
-    sig = "C13:text:carriage-return"
-    if any(v != "as the property demands" for v in out.values()):
-        assert sig in PENDING_FINDINGS
-        ctx.hit("pending:" + sig)
-        ctx.extra.setdefault("pending_findings", []).append(
-            {"signature": sig, "witness": {"kind": "xyz", "text": CR_WITNESS, "cuts": [half - 1, len(data), len(data)]},
-             "observed": out})
-    else:
-        ctx.extra.setdefault("notes", []).append(f"{sig}: the CRLF witness is read as the property demands")
+    """ENFORCED (finding C13:text:carriage-return, fixed by /repo d5ef98e: the readers open with newline="\\n"): on
+    CRLF files and on files with lone '\\r' (as a blank, inside free text, doubled in front of the newline), at EVERY
+    cut c (polls c, c+1, T, T): no exception, frames exactly as the property demands, and current_position is a byte
+    offset — a frame boundary (LAMMPS: minus the not yet consumed line end).  With universal-newline translation a
+    pending '\\r' at the end of the visible bytes reads as a line end, tell() becomes an opaque cookie and the next
+    poll raises ZeroDivisionError (witness: CR_WITNESS, cuts [23, 48, 48])."""
+    jobs = []
+    for text, frames in ((CR_WITNESS, CR_FRAMES), (CR_LONE, CR_FRAMES)):
+        data = text.encode()
+        k = text.index("\n2") + 1
+        jobs.append(("xyz", text, frames, [0, k, len(data)], None))
+    k = CR_LMP.index("\nT") + 1
+    lb = [0, k, len(CR_LMP)]
+    jobs.append(("lmp", CR_LMP, CR_LMP_FRAMES, lb, lmp_slacks(CR_LMP, lb)))
+    for kind, text, frames, bounds, sl in jobs:
+        data = text.encode()
+        T = len(data)
+        fn = ep.xyz_reader if kind == "xyz" else ep.lammpstrj_reader
+        conv = conv_xyz if kind == "xyz" else conv_lmp
+        seqs = [[23, 48, 48]] if text is CR_WITNESS else []
+        seqs += [[c, min(c + 1, T), T, T] for c in range(T + 1)]
+        for cuts in seqs:
+            stages = rf.polls(ep, fn, data, cuts, conv)
+            ctx.count(1, branch=f"{kind}:carriage-return")
+            ctx.distinct(("cr", kind, text, tuple(cuts)))
+            bad = (pred_xyz(stages, cuts, frames, bounds) if kind == "xyz"
+                   else pred_lmp(stages, cuts, frames, bounds, sl))
+            if bad is None:
+                for j, st in enumerate(stages):
+                    pos = st[0]
+                    ok = (pos in bounds if kind == "xyz" else
+                          any(b - s_ <= pos <= b for b, s_ in zip(bounds, [0] + sl)) and pos <= max(cuts[:j + 1]))
+                    if not ok:
+                        bad = (SIG_CR, f"after poll {j} current_position is {pos}: not a byte offset at a frame end", j)
+                        break
+            if bad is not None:
+                ctx.hit(f"{kind}:predicate-fails:{SIG_CR}")
+                seen = ctx.extra.setdefault("_c13_reported", [])
+                if SIG_CR not in seen:
+                    seen.append(SIG_CR)
+                    ctx.fail(SIG_CR, f"{kind} reader on a file with carriage returns: {bad[1]} [{bad[0]}]; stages: "
+                             + " | ".join(show_code_stage(st, kind) for st in stages),
+                             {"kind": kind, "text": text, "cuts": cuts, "stage": bad[2], "frames": frames,
+                              "bounds": bounds, **({"slack": sl} if sl else {})})
 
 
 # ----------------------------------------------------------------------------- text readers
@@ -519,6 +570,8 @@ def check_text(ctx, ep, rf, kind, text, frames, bounds, seqs, label, trailing=0)
                 and any(in_slack(c, bounds, trailing) for c in cuts)):
             bad = (SIG_TRAILING, bad[1] + " (a poll saw a frame up to its last id, the blank(s) and newline behind it "
                    "arrived later)", bad[2])
+        if bad is not None and "\r" in text and bad[0] != SIG_TRAILING:
+            bad = (SIG_CR, f"(file with carriage returns) {bad[1]} [{bad[0]}]", bad[2])
         if bad is not None:
             nfail += 1
             sig, what, stage = bad
@@ -527,7 +580,8 @@ def check_text(ctx, ep, rf, kind, text, frames, bounds, seqs, label, trailing=0)
             if sig not in seen:   # one replay per signature (the framework keeps at most 20 failures)
                 seen.append(sig)
                 ctx.fail(sig, f"{kind} reader: {what}",
-                         {"kind": kind, "text": text, "cuts": cuts, "stage": stage, "frames": frames, "bounds": bounds})
+                         {"kind": kind, "text": text, "cuts": cuts, "stage": stage, "frames": frames, "bounds": bounds,
+                          **({"slack": trailing} if trailing else {})})
         if have_model:
             if code_s[k] != m_asis[k]:
                 agree_asis = False
@@ -1172,9 +1226,21 @@ def run(ctx):
             lmp_plan += [(12, 2, 0, False, None), (11, 3, 1, False, None)]
             lmp_plan += [(na, nf, 3, na * nf <= 2, 20000) for na in range(1, 4) for nf in range(1, 4)]
             lmp_plan += [(na, nf, 4, na * nf <= 2, 20000) for na in range(1, 4) for nf in range(1, 5)]
+        # carriage-return classes (since /repo d5ef98e): xyz style 4 = compact + CRLF, 5 = random blanks + mixed line
+        # ends and lone '\r'; LAMMPS style 5 = compact + CRLF, 6 = trailing blanks + mixed line ends and lone '\r'
+        if ctx.quick:
+            xyz_plan += [(1, 2, 4, True, 1500), (2, 3, 5, False, None), (1, 2, 5, True, 1500)]
+            lmp_plan += [(1, 2, 5, True, 1200), (2, 3, 6, False, None), (1, 2, 6, True, 1200)]
+        else:
+            xyz_plan += [(na, nf, st, na * nf <= 2, 20000) for na in range(1, 4) for nf in range(1, 4) for st in (4, 5)]
+            lmp_plan += [(na, nf, st, na * nf <= 2, 20000) for na in range(1, 4) for nf in range(1, 4) for st in (5, 6)]
         pool = []
         for j, (na, nf, style, pairs, mp) in enumerate(xyz_plan):
-            text, frames, bounds = gen_xyz(rng, na, nf, style)
+            if style in (4, 5):
+                text, frames, bounds = gen_xyz(rng, na, nf, 0 if style == 4 else 2)
+                text, bounds = with_cr(rng, text, bounds, "crlf" if style == 4 else "mixed")
+            else:
+                text, frames, bounds = gen_xyz(rng, na, nf, style)
             pool.append(("xyz", text, frames, bounds, None))
             seqs = cut_seqs(blen(text), pairs, rng, mp) + extra_seqs(blen(text), bounds, rng)
             check_text(ctx, ep, rf, "xyz", text, frames, bounds, seqs, f"xyz{j}:{na}x{nf}:s{style}")
@@ -1197,17 +1263,21 @@ def run(ctx):
             seqs += extra_seqs(T, bounds, rng, n_multi=4)
             check_text(ctx, ep, rf, "xyz", text, frames, bounds, seqs, f"xyzbig{j}:{na}x{nf}:s{style}")
         for j, (na, nf, style, pairs, mp) in enumerate(lmp_plan):
-            text, frames, bounds = gen_lmp(rng, na, nf, style)
+            if style in (5, 6):
+                text, frames, bounds = gen_lmp(rng, na, nf, 0 if style == 5 else 3)
+                text, bounds = with_cr(rng, text, bounds, "crlf" if style == 5 else "mixed")
+            else:
+                text, frames, bounds = gen_lmp(rng, na, nf, style)
             sl = lmp_slacks(text, bounds)
             pool.append(("lmp", text, frames, bounds, sl))   # trailing-blank classes included since fix dfb19e7
             seqs = cut_seqs(blen(text), pairs, rng, mp) + extra_seqs(blen(text), bounds, rng)
-            if style in (3, 4):     # every cut inside the white space behind every frame's last id, in pairs too
+            if max(sl) > 1:         # every cut inside the white space behind every frame's last id, in pairs too
                 T = blen(text)
                 ins = [c for c in range(T + 1) if in_slack(c, bounds, sl)]
                 seqs += [[a, b, T, T] for a in ins for b in ins if a <= b][:400]
                 seqs += [[a, a + 1, a + 2, T, T] for a in ins]
             check_text(ctx, ep, rf, "lmp", text, frames, bounds, seqs, f"lmp{j}:{na}x{nf}:s{style}",
-                       trailing=(sl if style in (3, 4) else 0))
+                       trailing=(sl if max(sl) > 1 else 0))
             if j < 1:
                 ctx.sample({"kind": "lammpstrj", "text": text, "n_cut_sequences": len(seqs)})
 
@@ -1252,7 +1322,9 @@ def run(ctx):
     new_assumptions = [
         "text is modelled as bytes with '\\n' as the only structural byte; UTF-8 multi-byte characters are allowed in "
         "the free-text places (xyz comment line and atom names, LAMMPS header texts and type token) and cuts inside "
-        "them are enumerated; excluded: '\\r' (universal-newline translation), non-ASCII Unicode whitespace "
+        "them are enumerated; '\\r' is an ordinary blank since /repo d5ef98e (open with newline='\\n': only '\\n' ends a "
+        "line) — CRLF and lone-'\\r' classes are generated for both readers and the enforced predicate "
+        "C13:text:carriage-return runs at every cut of three witness files; excluded: non-ASCII Unicode whitespace "
         "(U+0085, U+00A0, U+2000.., U+3000: str.split() would split there, the byte model does not), and a locale "
         "whose encoding is not UTF-8",
         "constant atom count over a trajectory (the readers learn N only from the first frame of each poll)",
